@@ -82,6 +82,7 @@ func C12(ctx *core.Ctx) {
 	ctx.Rule("C12.R2", "guard exactness: each size guard rejects iff (bytes after the operation) > limit, with limit > 0 && where 0 means unbounded", 6)
 	ctx.Rule("C12.R3", "every transmission is dominated by the pass edge of its transport's guard; the reject edge returns REQUEST_TOO_LARGE", 5)
 	ctx.Rule("C12.R4", "response-side conversion: SendReply → trapError → APPLICATION_EXCEPTION_RESPONSE_TOO_LARGE → client RESPONSE_TOO_LARGE; HTTP 413 both ways; IsErrTooLarge knows both kinds", 9)
+	c12EncoderErrors(ctx, r)
 	ctx.Rule("C12.R5", "limit wiring: client buffer limit = transport's GetRequestSizeLimit/GetPublishSizeLimit; Reset restores the frame prefix through the guarded Write", 4)
 
 	cfg := &bounds.Config{IntBits: IntBits(), AssumeLenI32: true, Ideal: true}
